@@ -102,6 +102,10 @@ def r3_wake_before_callback(ctx):
         a = [s for s in g.calls() if s.name.endswith('ModuleRef::activate')]
         c = g.calls_to(callee)
         ctx.check(bool(a and c) and g.dominates(a[0].b, c[0].b), 'activate-first:%s' % k.split('::')[-2], '%s activates the module (waking due timers) before calling into it' % short(k), g.where())
+        # ... for every such event: a wake-up event that finds no timer due is still processed - activation clears the reached wake-up and
+        # deactivation announces the next deadline; dropping it leaves a later deadline without any wake-up event
+        if a:
+            ctx.check(g.postdominates_entry(a[0].b), 'event-always-processed:%s' % k.split('::')[-2], '%s processes every event it is given (no early return before the module is activated)' % short(k), g.where())
 
 
 def r4_budget_untouched(ctx):
@@ -153,7 +157,25 @@ def r6_timer_wakeups(ctx):
     C05.r5_registration(ctx, 'C06.R5')
 
 
+def r7_final_turn(ctx):
+    """tear-down gives the module's tasks the turn its handler enabled before their join handles are judged: after the harnessed
+    at_sim_end the module's task set is driven once more (block_on(yield_now)) - the one event after which no further event can pick
+    up what was left runnable"""
+    ctx.set_rule('C06.R7')
+    g = ctx.P.fns.get(EV + 'at_sim_end')
+    if g is None:
+        ctx.violation('anchor:at_sim_end', 'unresolved-anchor ModuleRef::at_sim_end'); return
+    ctx.touch(g)
+    fin = [c for c in g.calls() if c.name.endswith('JoinHandle::is_finished')]
+    turn = [c for c in g.calls() if c.name.endswith('LocalSet::block_on')]
+    if not fin:
+        ctx.note('at_sim_end judges no join handles'); return
+    ctx.check(bool(turn) and all(any(g.dominates(t.b, c.b) and t.b != c.b for t in turn) for c in fin), 'final-turn-before-joins',
+              "at_sim_end drives the module's task set once more before it inspects the join handles", fin[0].where(), {'turns': len(turn), 'inspections': len(fin)})
+
+
 def run(ctx):
+    r7_final_turn(ctx)
     from .C05 import r9_timer_resolution
     r9_timer_resolution(ctx, rule='C06.R5')   # (shared with C05.R9)
     r5_runtime_turn_per_event(ctx)
